@@ -706,10 +706,14 @@ def element_details(repo, rep, rule="R09.3"):
               construct="decode-which", where=wh,
               detail=str([src(c) for c in cmps]))
     # use-macro: omit the element's own tag
-    branch = [n for n in ast.walk(ve.node) if isinstance(n, ast.If)
-              and src(n.test) in ("use_macro or extend_macro",
-                                  "extend_macro or use_macro")]
-    om = [a for b in branch[:1] for a in b.body if isinstance(a, ast.Assign)
+    branch = []
+    for n in ast.walk(ve.node):
+        if isinstance(n, ast.If):
+            pt, flip = L._CanonIf._pos(n.test)
+            if src(pt) in ("use_macro or extend_macro",
+                           "extend_macro or use_macro"):
+                branch.append(n.orelse if flip else n.body)
+    om = [a for b in branch[:1] for a in b if isinstance(a, ast.Assign)
           and src(a.targets[0]) == "omit"]
     rep.check(len(om) == 1 and isinstance(om[0].value, ast.Constant)
               and om[0].value.value is True, rule, ve.qualname, "the element "
